@@ -8,7 +8,10 @@ package main
 // skolemised first so that their witnesses are ground. Only instances of assumptions are added, so the
 // transformation is sound; the original quantified formulas are kept.
 
-import "fmt"
+import (
+	"fmt"
+	"sort"
+)
 
 var skCtr int
 
@@ -62,28 +65,44 @@ func skolemize(t *Term, positive bool) *Term {
 	return t
 }
 
-// arrayRoot peels stores (and ite branches are not followed) off an array term.
-func arrayRoot(a *Term) *Term {
-	for a.op == "store" {
-		a = a.args[0]
+// arrayRoots collects the region variables an array term is built from: stores, the row selection
+// select(region, base) of a two-level region and both branches of an ite are peeled off. Keying on
+// the region variable (not on the row term) matters: the row a hypothesis reads and the row the
+// goal reads are often different terms for the same row (select(H, b) before a call, select(store(H,
+// b', r), b) after it), and a filter keyed on the row term then drops the instance the proof needs.
+func arrayRoots(a *Term, out map[int]bool) {
+	for {
+		switch a.op {
+		case "store", "select":
+			a = a.args[0]
+			continue
+		case "ite":
+			arrayRoots(a.args[1], out)
+			arrayRoots(a.args[2], out)
+			return
+		}
+		break
 	}
-	return a
+	if !a.bound {
+		out[a.id] = true
+	}
 }
 
 // groundIndexTerms collects the ground 64-bit index terms of select applications, grouped by the root
-// of the array they read (stores peeled off).
+// of the array they read.
 func groundIndexTerms(t *Term, seen map[int]bool, out map[int]map[int]*Term) {
 	if seen[t.id] {
 		return
 	}
 	seen[t.id] = true
 	if t.op == "select" && !t.args[1].bound && t.args[1].sort == I64 {
-		r := arrayRoot(t.args[0])
-		if !r.bound {
-			if out[r.id] == nil {
-				out[r.id] = map[int]*Term{}
+		roots := map[int]bool{}
+		arrayRoots(t.args[0], roots)
+		for r := range roots {
+			if out[r] == nil {
+				out[r] = map[int]*Term{}
 			}
-			out[r.id][t.args[1].id] = t.args[1]
+			out[r][t.args[1].id] = t.args[1]
 		}
 	}
 	for _, a := range t.args {
@@ -98,7 +117,7 @@ func arraysRead(body *Term, seen map[int]bool, out map[int]bool) {
 	}
 	seen[body.id] = true
 	if body.op == "select" && body.args[1].bound {
-		out[arrayRoot(body.args[0]).id] = true
+		arrayRoots(body.args[0], out)
 	}
 	for _, a := range body.args {
 		arraysRead(a, seen, out)
@@ -191,6 +210,12 @@ func instantiateQuery(f *Term, neg *Term) *Term {
 	} else {
 		f = skolemize(f, true)
 	}
+	// A negated goal that is still quantified after skolemisation (the goal was existential) is itself a
+	// hypothesis to instantiate and names no ground index: the witnesses it needs occur elsewhere in the
+	// query, so the selection cannot be directed by it.
+	if seedsT != nil && containsQuant(seedsT) {
+		seedsT = nil
+	}
 	extra := []*Term{}
 	done := map[string]bool{}
 	cur := f
@@ -204,7 +229,12 @@ func instantiateQuery(f *Term, neg *Term) *Term {
 		byRoot := map[int]map[int]*Term{}
 		if seedFrom != nil {
 			groundIndexTerms(seedFrom, map[int]bool{}, byRoot)
-		} else {
+			if len(byRoot) == 0 && round == 0 {
+				// the goal reads no array: undirected selection
+				seedsT, seedFrom = nil, nil
+			}
+		}
+		if seedFrom == nil {
 			groundIndexTerms(cur, map[int]bool{}, byRoot)
 		}
 		if len(byRoot) == 0 {
@@ -229,8 +259,10 @@ func instantiateQuery(f *Term, neg *Term) *Term {
 			if len(idxs) > 600 {
 				continue
 			}
-			for _, b := range offs {
-				for _, ix := range idxs {
+			// sorted: the order of the instances in the query must not depend on map iteration (solver
+			// times vary with the order of assertions)
+			for _, b := range sortedTerms(offs) {
+				for _, ix := range sortedTerms(idxs) {
 					inst := subOffset(ix, b)
 					key := fmt.Sprintf("%d:%d", h.q.id, inst.id)
 					if done[key] {
@@ -263,6 +295,19 @@ func instantiateQuery(f *Term, neg *Term) *Term {
 		}
 	}
 	return And(append([]*Term{f}, extra...)...)
+}
+
+func sortedTerms(m map[int]*Term) []*Term {
+	ids := make([]int, 0, len(m))
+	for id := range m {
+		ids = append(ids, id)
+	}
+	sort.Ints(ids)
+	out := make([]*Term, len(ids))
+	for i, id := range ids {
+		out[i] = m[id]
+	}
+	return out
 }
 
 // subOffset computes ix - b, cancelling syntactically when the summands of b occur in ix.
